@@ -308,6 +308,11 @@ def run(st, tier, seed):
                         job["history"] = job["history"] + [{"entry": job["entry"], "includes": list(job["includes"]), "out": pj("refused.pil"),
                                                             "save": pj("refused.save"), "args": [7, 8, 9]}]
                         res.count("history:refused-compile-of-the-same-program")
+                    if rng.random() < 0.3:
+                        # the compiler package is imported while the process sits in another project's directory (same relative file
+                        # names there), then the process moves here and compiles: nothing may be remembered from import time
+                        job["import_from"] = os.path.join(root, "hist%d" % rng.randrange(len(hist)))
+                        res.count("imported-in-another-project-directory")
                     hs = seeds_cycle[c % 8]
                     runs.append((fmt, c, where, cwd, job, hs, nh))
             for c, k in enumerate(ks):
